@@ -12,7 +12,7 @@ namespace Jomini.TextDe
 
 /-- scalar target types: typed leaves, strings, `any`, `ign`, unit enums, `Option` of those -/
 def Ty.isScalarTy : Ty → Bool
-  | .bool | .i64 | .u64 | .i32 | .u32 | .f64 | .f32 | .str | .any | .ign | .en _ => true
+  | .bool | .i64 | .u64 | .i32 | .u32 | .i16 | .u16 | .i8 | .u8 | .f64 | .f32 | .str | .any | .ign | .en _ => true
   | .opt t => Ty.isScalarTy t
   | _ => false
 
@@ -249,12 +249,12 @@ def Ty.isRoot : Ty → Bool
 
 /-- typed scalars and strings (what a container can never be read as) -/
 def Ty.isTypedLeaf : Ty → Bool
-  | .bool | .i64 | .u64 | .i32 | .u32 | .f64 | .f32 | .str => true
+  | .bool | .i64 | .u64 | .i32 | .u32 | .i16 | .u16 | .i8 | .u8 | .f64 | .f32 | .str => true
   | _ => false
 
 /-- typed leaves, strings, `any`, unit enums -/
 def Ty.isPlainScalar : Ty → Bool
-  | .bool | .i64 | .u64 | .i32 | .u32 | .f64 | .f32 | .str | .any | .en _ => true
+  | .bool | .i64 | .u64 | .i32 | .u32 | .i16 | .u16 | .i8 | .u8 | .f64 | .f32 | .str | .any | .en _ => true
   | _ => false
 
 /-- the (type, value) pairs on which the two paths are proved to agree with `valueOf`.  Mostly: the
